@@ -216,6 +216,7 @@ func (sc *serverConn) Serve() error {
 
 	defer func() {
 		// close the reader here so we can stop handling stream updates
+		verifPoint("srv.teardown")
 		close(sc.reader)
 
 		// ServeConn closes the socket the moment this returns, so a GOAWAY that
@@ -387,6 +388,7 @@ func (sc *serverConn) readLoop() (err error) {
 				return errConnClosed
 			}
 
+			verifPoint("srv.read.handoff")
 			if !sc.toStreamLoop(fr) {
 				return errConnClosed
 			}
@@ -977,6 +979,7 @@ loop:
 					strm.SetState(StreamStateClosed)
 				} else {
 					// The response comes back on handlerDone, not here.
+					verifPoint("srv.loop.dispatch")
 					sc.dispatchHandler(strm)
 				}
 			} else if strm.responded && !strm.handlerRunning && strm.hasMoreToSend() {
@@ -1589,6 +1592,7 @@ func (sc *serverConn) dispatchHandler(strm *Stream) {
 				ctx.Response.SetStatusCode(fasthttp.StatusInternalServerError)
 			}
 
+			verifPoint("srv.handler.done")
 			select {
 			case sc.handlerDone <- strm:
 			case <-sc.handlerStop:
@@ -1844,6 +1848,8 @@ func (sc *serverConn) writeLoop() {
 
 	send := func(fr *FrameHeader) error {
 		var err error
+
+		verifPoint("srv.write")
 
 		// A response header block larger than a frame is continued in
 		// CONTINUATION frames. It is split here, on the only goroutine that
